@@ -207,17 +207,18 @@ def lean_obligations(ctx, extra_modules=()):
     mods = [f"TexelVerif.Props.{prop}"] + list(extra_modules)
     ok, out = lake_build(mods + ["driver"])
     thms = props_theorems(prop)
-    ctx.cov["obligations"] = len(thms)
+    base_obl, base_dis = ctx.cov["obligations"], ctx.cov["discharged"]     # Bridge theorems counted earlier by xlate.regenerate
+    ctx.cov["obligations"] = base_obl + len(thms)
     ctx.cov["checker_cmd"] = f"cd lean && lake build {' '.join(mods)} && lake env lean <#print axioms of the {len(thms)} theorems of Props/{prop}.lean>"
     if not ok:
         errs = [l for l in out.split("\n") if "error" in l][:10]
-        ctx.cov["discharged"] = 0
+        ctx.cov["discharged"] = base_dis
         ctx.lean_errors = errs
         ctx.violation("Lean build of the property theorems failed", {"kind": "lean-build", "modules": mods, "errors": errs}, no_input=True)
         return False
     probs = lean_hygiene()
     if probs:
-        ctx.cov["discharged"] = 0
+        ctx.cov["discharged"] = base_dis
         ctx.violation("Lean hygiene audit failed", {"kind": "lean-hygiene", "problems": probs[:20]}, no_input=True)
         return False
     # axiom audit
@@ -233,10 +234,10 @@ def lean_obligations(ctx, extra_modules=()):
             bad.append((m.group(1), sorted(ax - ALLOWED_AXIOMS)))
     missing = [t for t in thms if t not in axioms]
     if rc != 0 or missing or bad:
-        ctx.cov["discharged"] = len(thms) - len(missing) - len(bad)
+        ctx.cov["discharged"] = base_dis + len(thms) - len(missing) - len(bad)
         ctx.violation("axiom audit failed", {"kind": "lean-axioms", "missing": missing, "bad": bad, "output": out[-2000:]}, no_input=True)
         return False
-    ctx.cov["discharged"] = len(thms)
+    ctx.cov["discharged"] = base_dis + len(thms)
     used = sorted(set(a for v in axioms.values() for a in v))
     ctx.cov["trusted_base"] = [f"Lean 4 kernel (lake build, Lean {lean_version()})", f"axioms used by the {len(thms)} property theorems: {used}",
                                "no sorry/admit/axiom/native_decide/bv_decide/implemented_by/unsafe in lean/TexelVerif (grep on comment-stripped sources)",
